@@ -31,6 +31,27 @@ static_assert(HasFunctionGetEvent<PoliciesGetEventRef, const EventStruct &, int>
 static_assert(HasFunctionGetEvent<PoliciesGetEventRef, EventStruct &&, int>::value, "policy callable with rvalue");   // @C04
 static_assert(!HasFunctionGetEvent<PoliciesGetEventRef, int, int>::value, "policy not callable");   // @C04
 static_assert(!HasFunctionGetEvent<DefaultPolicies, int>::value, "no getEvent");   // @C04
+// detection == callability, against a detector written independently of the library's (void_t idiom), over parameter kinds x argument kinds
+template <typename ...> struct VoidT { using type = void; };
+template <typename P, typename Enable, typename ...A> struct CanCallGetEventImpl : std::false_type {};
+template <typename P, typename ...A> struct CanCallGetEventImpl<P, typename VoidT<decltype(P::getEvent(std::declval<A>()...))>::type, A...> : std::true_type {};
+template <typename P, typename ...A> struct CanCallGetEvent : CanCallGetEventImpl<P, void, A...> {};
+struct GEByValue { static int getEvent(int e, std::string) { return e; } };
+struct GEConstRef { static int getEvent(const int & e, const std::string &) { return e; } };
+struct GEMutRef { static int getEvent(int e, std::string &) { return e; } };
+struct GERvalueRef { static int getEvent(int e, std::string &&) { return e; } };
+struct GETemplate { template <typename T> static int getEvent(int e, T &&) { return e; } };
+#define WIT_GE_AGREE(P, ...) static_assert(HasFunctionGetEvent<P, __VA_ARGS__>::value == CanCallGetEvent<P, __VA_ARGS__>::value, "getEvent detection agrees with callability: " #P " (" #__VA_ARGS__ ")")
+#define WIT_GE_ROW(P) \
+	WIT_GE_AGREE(P, int, std::string); WIT_GE_AGREE(P, int, std::string &); WIT_GE_AGREE(P, int, const std::string &); WIT_GE_AGREE(P, int, std::string &&); \
+	WIT_GE_AGREE(P, int &, std::string &); WIT_GE_AGREE(P, const int &, const std::string &); WIT_GE_AGREE(P, int, int); WIT_GE_AGREE(P, int)
+WIT_GE_ROW(GEByValue);   // @C04
+WIT_GE_ROW(GEConstRef);   // @C04
+WIT_GE_ROW(GEMutRef);   // @C04
+WIT_GE_ROW(GERvalueRef);   // @C04
+WIT_GE_ROW(GETemplate);   // @C04
+static_assert(HasFunctionGetEvent<GEMutRef, int, std::string &>::value, "a policy taking a non-const lvalue reference is detected for an lvalue argument");   // @C04
+static_assert(!HasFunctionGetEvent<GEMutRef, int, std::string &&>::value && !HasFunctionGetEvent<GERvalueRef, int, std::string &>::value, "reference kinds are respected");   // @C04
 static_assert(std::is_same<SelectGetEvent<PoliciesGetEventRef, std::string, true>::Type, PoliciesGetEventRef>::value, "selects policy");   // @C04
 static_assert(std::is_same<SelectGetEvent<PoliciesGetEventRef, std::string, false>::Type, DefaultGetEvent<std::string> >::value, "falls back to first argument");   // @C04
 // (a by-value result of the default getEvent is not required: callers copy the key before they forward the arguments;
@@ -64,5 +85,19 @@ static_assert(std::is_same<decltype(Q1::QueuedEvent::event), int>::value, "event
 static_assert(std::is_same<MakeIndexSequence<0>::Type, IndexSequence<> >::value, "seq0");   // @C05
 static_assert(std::is_same<MakeIndexSequence<1>::Type, IndexSequence<0> >::value, "seq1");   // @C05
 static_assert(std::is_same<MakeIndexSequence<4>::Type, IndexSequence<0, 1, 2, 3> >::value, "seq4");   // @C05
+static_assert(std::is_same<MakeIndexSequence<2>::Type, IndexSequence<0, 1> >::value, "seq2");   // @C05
+static_assert(std::is_same<MakeIndexSequence<3>::Type, IndexSequence<0, 1, 2> >::value, "seq3");   // @C05
+static_assert(std::is_same<MakeIndexSequence<5>::Type, IndexSequence<0, 1, 2, 3, 4> >::value, "seq5");   // @C05
+static_assert(std::is_same<MakeIndexSequence<6>::Type, IndexSequence<0, 1, 2, 3, 4, 5> >::value, "seq6");   // @C05
+static_assert(std::is_same<MakeIndexSequence<7>::Type, IndexSequence<0, 1, 2, 3, 4, 5, 6> >::value, "seq7");   // @C05
+static_assert(std::is_same<MakeIndexSequence<9>::Type, IndexSequence<0, 1, 2, 3, 4, 5, 6, 7, 8> >::value, "seq9");   // @C05
+// any length: the sequence of N+1 is the sequence of N followed by N (checked up to 24)
+template <typename S, std::size_t N> struct AppendIndex;
+template <std::size_t ...I, std::size_t N> struct AppendIndex<IndexSequence<I...>, N> { using Type = IndexSequence<I..., N>; };
+template <std::size_t N> struct SeqStep {
+	static constexpr bool value = std::is_same<typename MakeIndexSequence<N + 1>::Type, typename AppendIndex<typename MakeIndexSequence<N>::Type, N>::Type>::value && SeqStep<N - 1>::value;
+};
+template <> struct SeqStep<0> { static constexpr bool value = std::is_same<MakeIndexSequence<1>::Type, IndexSequence<0> >::value; };
+static_assert(SeqStep<24>::value, "MakeIndexSequence<N+1> is MakeIndexSequence<N> followed by N, for every N up to 24");   // @C05
 
 } // namespace wit
